@@ -910,6 +910,110 @@ func guardClass(kind, guard string) string {
 	return "cmp"
 }
 
+// cleanupFacts: for the session layer of pdkg.Loop (handlePeerMsg, handleRequest and the expiry sweep
+// inside Loop) the ordered clean-up operations of every statement list that closes a channel:
+// ("send", channel) for a send (plain or as a select case), ("close", channel), ("delete", map).
+// The session-layer model reads them: which of the two maps each path clears and that the reply
+// channel is closed exactly once, after the send.
+func cleanupFacts(repo string) (string, error) {
+	fset, f, err := ex.Parse(filepath.Join(repo, "share/dkg/pedersen/pdkg.go"))
+	if err != nil {
+		return "", err
+	}
+	type path struct {
+		name string
+		ops  [][2]string
+	}
+	var paths []path
+	opsOf := func(stmts []ast.Stmt) (ops [][2]string, closes bool) {
+		callOp := func(e ast.Expr) {
+			c, ok := e.(*ast.CallExpr)
+			if !ok {
+				return
+			}
+			id, ok := c.Fun.(*ast.Ident)
+			if !ok {
+				return
+			}
+			switch {
+			case id.Name == "close" && len(c.Args) == 1:
+				ops = append(ops, [2]string{"close", txt(fset, c.Args[0])})
+				closes = true
+			case id.Name == "delete" && len(c.Args) == 2:
+				ops = append(ops, [2]string{"delete", txt(fset, c.Args[0])})
+			}
+		}
+		for _, st := range stmts {
+			switch x := st.(type) {
+			case *ast.ExprStmt:
+				callOp(x.X)
+			case *ast.SendStmt:
+				ops = append(ops, [2]string{"send", txt(fset, x.Chan)})
+			case *ast.SelectStmt:
+				for _, cc := range x.Body.List {
+					if snd, ok := cc.(*ast.CommClause).Comm.(*ast.SendStmt); ok {
+						ops = append(ops, [2]string{"send", txt(fset, snd.Chan)})
+					}
+				}
+			}
+		}
+		return
+	}
+	for _, want := range []string{"handlePeerMsg", "handleRequest", "Loop"} {
+		var fd *ast.FuncDecl
+		for _, d := range f.Decls {
+			if x, ok := d.(*ast.FuncDecl); ok && x.Name.Name == want && x.Body != nil {
+				fd = x
+			}
+		}
+		if fd == nil {
+			return "", fmt.Errorf("cleanup facts: function %s not found in pdkg.go", want)
+		}
+		n := 0
+		ast.Inspect(fd.Body, func(nd ast.Node) bool {
+			var list []ast.Stmt
+			switch x := nd.(type) {
+			case *ast.BlockStmt:
+				list = x.List
+			case *ast.CommClause:
+				list = x.Body
+			case *ast.CaseClause:
+				list = x.Body
+			}
+			if list != nil {
+				if ops, closes := opsOf(list); closes {
+					n++
+					name := "dkg." + want
+					if n > 1 {
+						name = fmt.Sprintf("%s#%d", name, n)
+					}
+					paths = append(paths, path{name, ops})
+				}
+			}
+			return true
+		})
+		if n == 0 {
+			return "", fmt.Errorf("cleanup facts: no closing path found in %s", want)
+		}
+	}
+	var b strings.Builder
+	b.WriteString("/-- session layer of pdkg.Loop: the ordered clean-up operations (kind, operand) of every statement list that closes a channel -/\n")
+	b.WriteString("def cleanup : List (String × List (String × String)) := [\n")
+	for i, p := range paths {
+		var ops []string
+		for _, o := range p.ops {
+			ops = append(ops, fmt.Sprintf("(%s, %s)", ex.LeanStr(o[0]), ex.LeanStr(o[1])))
+		}
+		sep := ","
+		if i == len(paths)-1 {
+			sep = ""
+		}
+		fmt.Fprintf(&b, "  (%s, [%s])%s\n", ex.LeanStr(p.name), strings.Join(ops, ", "), sep)
+	}
+	b.WriteString("]\n")
+	return b.String(), nil
+}
+
 func recvName(fd *ast.FuncDecl) string {
 	if fd.Recv == nil || len(fd.Recv.List) == 0 {
 		return ""
@@ -1103,6 +1207,12 @@ func run(repo string) (string, error) {
 		}
 		fmt.Fprintf(&b, "  (%s, %s)%s\n", ex.LeanStr(c[0]), ex.LeanStr(c[1]), sep)
 	}
-	b.WriteString("]\n\nend Dos.Gen.PanicSites\n")
+	b.WriteString("]\n\n")
+	cl, err := cleanupFacts(repo)
+	if err != nil {
+		return "", err
+	}
+	b.WriteString(cl)
+	b.WriteString("\nend Dos.Gen.PanicSites\n")
 	return b.String(), nil
 }
